@@ -132,6 +132,16 @@ func runC15(c *run.Ctx) {
 				ms.Reindex()
 				sdl = ms.SDL(model.SDLOpts{BlockDesc: i%3 == 0})
 			}
+			if i%8 == 6 && !ms.ExplicitSchema && ms.Mutation == "Mutation" {
+				// no schema definition; the mutation root has a name of its own and is attached by `extend schema`
+				if mt := ms.Type("Mutation"); mt != nil {
+					mt.Name = "MutZz"
+					ms.Mutation = "MutZz"
+					ms.Reindex()
+					sdl = ms.SDL(model.SDLOpts{BlockDesc: i%3 == 0})
+					c.Count("implicit_schemas_extended_with_a_root_of_another_name", 1)
+				}
+			}
 			arr := c16Arrange(c.Rand(i*13+5), ms, 3+(i/4)%3)
 			a = ggql.NewRoot(&c15Root{Query: &c15Obj{}, Mutation: &c15Obj{}, Subscription: &c15Obj{}})
 			for _, l := range arr.loads {
@@ -168,6 +178,18 @@ func runC15(c *run.Ctx) {
 			}
 			c.Count("schemas_printed_after_a_refused_load", 1)
 		}
+		if i%5 == 1 {
+			// what a document put on the scalars every root has (they are not defined by any document) is part of the schema too
+			ext := fmt.Sprintf("directive @zzOnScalar(n: Int = 1) on SCALAR\n\nextend scalar Int @zzOnScalar\n\nextend scalar Time @zzOnScalar(n: %d)\n\nextend scalar ID @zzOnScalar(n: 3)", i)
+			var xerr error
+			if pv, _ := run.Protect(func() { xerr = a.ParseString(ext) }); pv != nil || xerr != nil {
+				c.Count("builtin_scalar_extension_not_accepted(left_to_C13)", 1)
+				continue
+			}
+			ms.Dirs = append(ms.Dirs, &model.DirDef{Name: "zzOnScalar", Args: []*model.ArgDef{{Name: "n", Type: model.Named("Int"), HasDefault: true, Default: int64(1)}}, On: []string{"SCALAR"}})
+			ms.Reindex()
+			c.Count("schemas_with_extended_builtin_scalars", 1)
+		}
 		want := extract.Canon(ms, extract.CanonOpts{})
 		ca, err := canonOf(a, extract.CanonOpts{})
 		if err != nil {
@@ -185,8 +207,8 @@ func runC15(c *run.Ctx) {
 			}
 		}
 		for _, mode := range []string{"root", "per-type"} {
-			if mode == "per-type" && sameName {
-				continue
+			if mode == "per-type" && (sameName || (!ms.ExplicitSchema && ms.Mutation == "MutZz")) {
+				continue // an extended implicit schema is not among the types a root lists: only Root.SDL can print it
 			}
 			var p1 string
 			pv, _ := run.Protect(func() {
@@ -230,6 +252,13 @@ func runC15(c *run.Ctx) {
 				} else {
 					rep("c15-schema-changed", firstDiff(ca, cb), map[string]interface{}{"mode": mode, "printed": p1})
 					continue
+				}
+			}
+			if mode == "root" {
+				for _, bn := range []string{"Int", "Float", "String", "Boolean", "ID", "Int64", "Float64", "Time"} {
+					if d := c15DirUsesDiff(a.GetType(bn), b.GetType(bn)); d != "" {
+						rep("c15-schema-changed", "built-in scalar "+bn+" "+d, map[string]interface{}{"mode": mode, "printed": p1})
+					}
 				}
 			}
 			if mode == "root" {
@@ -372,4 +401,32 @@ func goStringConstant(path, stdout string) (string, error) {
 		return "", fmt.Errorf("no string literal found in generated Go file")
 	}
 	return lit, nil
+}
+
+// c15DirUsesDiff compares the directive uses two roots hold for a type: the same directives in the same order, and for
+// every argument both uses carry the same value (the parser fills in defaults only for directives it already knows, so
+// the SET of carried arguments may differ between two roots that hold the same schema).
+func c15DirUsesDiff(ta, tb ggql.Type) string {
+	if ta == nil || tb == nil {
+		return fmt.Sprintf("type present in the printing root: %v, in the reading root: %v", ta != nil, tb != nil)
+	}
+	da, db := ta.Directives(), tb.Directives()
+	names := func(l []*ggql.DirectiveUse) string {
+		var out []string
+		for _, du := range l {
+			out = append(out, "@"+du.Directive.Name())
+		}
+		return strings.Join(out, " ")
+	}
+	if names(da) != names(db) {
+		return fmt.Sprintf("carries [%s] in the root that printed and [%s] in the root that read the text", names(da), names(db))
+	}
+	for k, du := range da {
+		for an, av := range du.Args {
+			if bv := db[k].Args[an]; bv != nil && fmt.Sprint(av.Value) != fmt.Sprint(bv.Value) {
+				return fmt.Sprintf("@%s(%s: %v) in the root that printed, %v in the root that read the text", du.Directive.Name(), an, av.Value, bv.Value)
+			}
+		}
+	}
+	return ""
 }
